@@ -394,9 +394,10 @@ static int ux_receive(struct xcm_socket *__restrict s,
     if (rc > 0) {
 	LOG_RCV_MSG(s, (size_t)rc);
 	XCM_TP_CNT_MSG_INC(us->cnts, from_lower, rc);
-	LOG_APP_DELIVERED(s, rc);
-	XCM_TP_CNT_MSG_INC(us->cnts, to_app, rc);
-	return UT_MIN(rc, capacity);
+	const int user_len = UT_MIN(rc, capacity);
+	LOG_APP_DELIVERED(s, user_len);
+	XCM_TP_CNT_MSG_INC(us->cnts, to_app, user_len);
+	return user_len;
     } else if (rc == 0) {
 	LOG_RCV_EOF(s);
 	return 0;
